@@ -958,3 +958,17 @@ class SiblingOrder:
             if inv != "ok":
                 return ("sibling-invariant-" + inv, "op %d (%s): checker says %s" % (i, op, inv))
         return None
+
+
+class SibApi(_Base):
+    """lyd_insert_node (both anchor searches, opaque fallback), lyd_insert_after / lyd_insert_before, free / unlink /
+    re-insert on ALL children of one parent vs Siblings.v (driver mode `sib`; the same case lines as the oracle sibling-order)"""
+    name = "sib"
+
+    def gen(self, rng, tier, scale=1.0):
+        return SiblingOrder().gen(rng, tier, scale)
+
+    def witness(self, line, model_out, impl_out):
+        if truncated(impl_out) or truncated(model_out):
+            return None
+        return SiblingOrder().judge(line, impl_out)
